@@ -194,6 +194,11 @@ class DispatchModel:
                     if isinstance(st, ast.Raise):
                         return "raise"
                     if isinstance(st, ast.Return):
+                        # the reader handed back as a value (the caller calls it): selected for this version all the same
+                        if isinstance(st.value, (ast.Name, ast.Attribute)) and not (isinstance(st.value, ast.Name) and st.value.id in params_of(disp.node)):
+                            r_ = ctx.repo.resolve_dotted(disp.module, deref(st.value))
+                            if r_ and r_[0] == "func":
+                                reached.append(r_[1])
                         return "return"
             return None
         end = walk(disp.node.body)
